@@ -33,11 +33,22 @@ class C13Oracle(Oracle):
         if name == "datagrams_to_send":  # read only to CLASSIFY a violation, never for the verdict
             loss = ep.conn._loss
             self.flight_budget = loss.congestion_window - loss.bytes_in_flight
+            self.probe_in_force = bool(getattr(ep.conn, "_probe_pending", False))
             self.own_amp_budget = None
             self.sent_in_call = 0
             paths = ep.conn._network_paths
             if paths and not paths[0].is_validated:
                 self.own_amp_budget = paths[0].bytes_received * 3 - paths[0].bytes_sent
+
+    def _situation(self, p, disc):
+        """classification only: two situations in which the unchanged builder never cuts a datagram short (the
+        closing packets are not subject to the congestion window, a probe after a timeout gets a full datagram);
+        a short Initial datagram there is something else than the recorded padding findings"""
+        if any(f.name.startswith("CONNECTION_CLOSE") for f in p.frames):
+            return ":closing-packet"
+        if getattr(self, "probe_in_force", False) and "amplification-budget" not in disc:
+            return ":probe-after-timeout"
+        return ""
 
     def on_frontend_datagram(self, ep, dgram, copy_index):
         # received by the server all the same (a Retry / Version Negotiation answer is sent on its account)
@@ -89,6 +100,7 @@ class C13Oracle(Oracle):
                 disc = "client-initial-datagram-below-1200:" + ("ack-eliciting" if p.ack_eliciting else "ack-only")
                 if self.flight_budget is not None and self.flight_budget < 1200:
                     disc += "/flight-budget-below-1200"
+                disc += self._situation(p, disc)
                 raise Violation("c13.padding", disc,
                                 "client datagram with an Initial packet (#%s %s) is only %d bytes" % (
                                     p.pn, [f.name for f in p.frames], n))
@@ -106,6 +118,7 @@ class C13Oracle(Oracle):
                     # classification: congestion window minus bytes in flight was below 1200 when
                     # the datagram was built; padding stops at the flight budget
                     disc += "/flight-budget-below-1200"
+                disc += self._situation(p, disc)
                 raise Violation("c13.padding", disc,
                                 "server datagram with an ack-eliciting Initial packet (#%s %s) is only %d bytes" % (
                                     p.pn, [f.name for f in p.frames], n))
